@@ -271,19 +271,25 @@ BasisEval eval_basis(const LP &lp, const std::string &cstat, const std::string &
 		if (!isb[n + i]) a -= logical_sign(i) * val[n + i];
 		b[i] = a;
 	}
-	Mat B(m, std::vector<Q>(m));
-	for (size_t c = 0; c < m; c++) { int k = basic[c];
-		if ((size_t)k < n) { for (size_t i = 0; i < m; i++) { auto it = lp.rows[i].coef.find(k); if (it != lp.rows[i].coef.end()) B[i][c] = it->second; } }
-		else B[k - n][c] = logical_sign(k - n); }
-	std::vector<Q> xb;
-	if (!solve_dense(B, b, xb)) { e.singular = true; return e; }
-	for (size_t c = 0; c < m; c++) val[basic[c]] = xb[c];
+	// B = [A_TJ 0; A_SJ +-I] with S the rows whose logical is basic, T the others and J the basic structurals (|J| = |T|): only the
+	// |T| x |T| block needs an elimination (problems with many rows and few columns have most logicals basic)
+	std::vector<int> J, Trows, Srows;
+	for (int k : basic) if ((size_t)k < n) J.push_back(k);
+	for (size_t i = 0; i < m; i++) (isb[n + i] ? Srows : Trows).push_back((int)i);
+	size_t t = Trows.size();
+	Mat M(t, std::vector<Q>(t)); std::vector<Q> bT(t);
+	for (size_t a = 0; a < t; a++) { const MRow &r = lp.rows[Trows[a]]; bT[a] = b[Trows[a]]; for (size_t c = 0; c < t; c++) { auto it = r.coef.find(J[c]); if (it != r.coef.end()) M[a][c] = it->second; } }
+	std::vector<Q> xJ;
+	if (t && !solve_dense(M, bT, xJ)) { e.singular = true; return e; }
+	for (size_t c = 0; c < t; c++) val[J[c]] = xJ[c];
+	for (int i : Srows) { Q a = b[i]; for (size_t c = 0; c < t; c++) { auto it = lp.rows[i].coef.find(J[c]); if (it != lp.rows[i].coef.end()) a -= it->second * xJ[c]; } val[n + i] = logical_sign(i) * a; }
 	e.primal_feasible = true;
 	for (size_t k = 0; k < n + m; k++) { if (cmp(Num(val[k]), lo_of(k)) < 0 || cmp(Num(val[k]), up_of(k)) > 0) e.primal_feasible = false; }
-	// duals: B^T pi' = c'_B
-	Mat BT(m, std::vector<Q>(m)); for (size_t i = 0; i < m; i++) for (size_t c = 0; c < m; c++) BT[c][i] = B[i][c];
-	std::vector<Q> cb(m); for (size_t c = 0; c < m; c++) cb[c] = (size_t)basic[c] < n ? Q(s * lp.cols[basic[c]].obj) : Q(0);
-	std::vector<Q> pim; solve_dense(BT, cb, pim);
+	// duals: B^T pi' = c'_B, i.e. pi'_S = 0 and A_TJ^T pi'_T = c'_J
+	Mat MT(t, std::vector<Q>(t)); for (size_t a = 0; a < t; a++) for (size_t c = 0; c < t; c++) MT[c][a] = M[a][c];
+	std::vector<Q> cJ(t); for (size_t c = 0; c < t; c++) cJ[c] = Q(s * lp.cols[J[c]].obj);
+	std::vector<Q> piT; if (t) solve_dense(MT, cJ, piT);
+	std::vector<Q> pim(m, Q(0)); for (size_t a = 0; a < t; a++) pim[Trows[a]] = piT[a];
 	std::vector<Q> rcm(n + m);
 	for (size_t j = 0; j < n; j++) rcm[j] = s * lp.cols[j].obj;
 	for (size_t i = 0; i < m; i++) { for (auto &kv : lp.rows[i].coef) rcm[kv.first] -= kv.second * pim[i]; rcm[n + i] = -logical_sign(i) * pim[i]; }
